@@ -188,7 +188,7 @@ PROPS = {
         rule="the bundled voice and PDF-perturbed copies (the property's quantifier) with random in-envelope conditions (GV on), 2..6 labels; h in [-24,24] incl. 0, +-12, +-24 and values up "
              "to +-80 that drive the clamp; two engine runs (h and 0) through the hook. class = (voice kind, zero/up/down/clamped); non-trivial = h != 0 with a voiced frame",
         theorem_clauses=["h = 0 is the identity", "static mean -> clamp(m + h*ln2/12), nothing else of the state changes", "voicing mask unchanged", "durations unchanged",
-                         "spectrum and low-pass streams unchanged", "trajectory level: shifting every static mean by h shifts the ML trajectory by exactly h (dynamic windows summing to 0)", "the shift law also holds through conv_gv and the five adaptive Newton-like GV steps (par_shift)"],
+                         "spectrum and low-pass streams unchanged", "trajectory level: shifting every static mean by h shifts the ML trajectory by exactly h (dynamic windows summing to 0)", "the shift law also holds through conv_gv and the five adaptive Newton-like GV steps (par_shift)", "END TO END (model): create after apply_additional_half_tone(h) = create + h*ln2/12 on every voiced frame, NODATA kept, while no state mean is clamped"],
         test_clauses=["log-F0 of every voiced frame moves by h*ln2/12 through MLPG and GV (1e-6) while no state is clamped"],
         assumptions=["shift-equivariance of the ML solution and of the GV iteration is tested, not proved"],
     ),
